@@ -80,6 +80,10 @@ structure DebugLoopFacts where
   stepKinds : List String
   /-- kinds whose entry points `cfgNodes` visits besides `root.start` -/
   cfgKinds : List String
+  /-- `(*node).setProgram`, which `Debug` calls on every node, keeps the debug data the node has:
+      a forwarding closure recorded while compiling (function literals) is still recorded when the
+      session runs — what `Respects` assumes of back edges (seed C19-4) -/
+  debugDataKept : Bool
   deriving DecidableEq, Repr
 
 /-- the part of the facts the executable model is parametrised by -/
@@ -625,11 +629,15 @@ def cfgReach (g : Graph) : Nat → List Nat → List Nat → List Nat
   | fuel + 1, i :: todo, seen =>
     if seen.contains i then cfgReach g fuel todo seen else cfgReach g fuel (succs g i ++ todo) (i :: seen)
 
+/-- enough for the walk to complete (`Proofs.C19.cfgReach_closed`): every item taken from `todo` is
+    either reached already or new, and a new node adds at most two items -/
+def cfgFuel (g : Graph) (entries : List Nat) : Nat := 4 * entries.length + 6 * g.size + 1
+
 /-- `cfgNodes(root)` -/
 def cfgNodes (F : LoopFacts) (g : Graph) (root : Nat) : List Nat :=
   let order := preorder g (walkFuel g) [root]
   let entries := cfgEntries F g order root
-  cfgReach g (3 * g.size + entries.length + 1) entries []
+  cfgReach g (cfgFuel g entries) entries []
 
 /-- the nodes `SetBreakpoints` marks for line requests: every step of a requested line that is on a
     path of a control-flow graph, in walk order -/
